@@ -1071,8 +1071,8 @@ func ruleC09Ifchanged(p *Prog, a *Anchors, r *Report) {
 			if !byContent {
 				continue
 			}
-			seen := Guarded(in, func(cond ssa.Value, pol bool) bool {
-				// a bool field of the remembered state that says "executed before", or the remembered content != nil
+			seenFlag := Guarded(in, func(cond ssa.Value, pol bool) bool {
+				// a bool field of the remembered state that says "executed before"
 				if u, isU := cond.(*ssa.UnOp); isU && u.Op == token.MUL && pol {
 					if fa, isFA := u.X.(*ssa.FieldAddr); isFA {
 						if n := structOf(fa.X.Type()); n != nil && n.Obj().Name() == "tagIfchangedState" {
@@ -1082,9 +1082,33 @@ func ruleC09Ifchanged(p *Prog, a *Anchors, r *Report) {
 						}
 					}
 				}
+				return false
+			})
+			// … or the remembered content != nil — which says "executed before" only if an execution never remembers nil:
+			// the Bytes() of a zero bytes.Buffer nothing was written to IS nil, so a body that rendered nothing would
+			// look like no execution at all
+			seenNil := !seenFlag && Guarded(in, func(cond ssa.Value, pol bool) bool {
 				x, eq, isNil := condIsNilTest(cond)
 				return isNil && eq != pol && loadsField(x, "tagIfchangedState", "lastContent")
 			})
+			if seenNil {
+				for _, sb := range exec.Blocks {
+					for _, si := range sb.Instrs {
+						st, isSt := si.(*ssa.Store)
+						if !isSt || !isFieldAddrOf(st.Addr, "tagIfchangedState", "lastContent") {
+							continue
+						}
+						if !c09NonNilBytes(p, st.Val, 0) {
+							seenNil = false
+							r.Bad("else:not-first:remembers-nil", p.InstrPos(si), "\"not executed yet\" is read from the remembered content being nil, but an execution can remember nil itself (%s — the Bytes() of a buffer nothing was written to): after a pass whose body rendered nothing the tag believes it never ran, and the else-part is lost for as long as the body stays empty", p.VN(st.Val))
+						}
+					}
+				}
+				if !seenNil {
+					continue
+				}
+			}
+			seen := seenFlag || seenNil
 			if seen {
 				r.OK("else:not-first", p.InstrPos(in), "the content form reaches its else-part only when the tag was executed before in this rendering")
 			} else {
@@ -1311,4 +1335,44 @@ func ruleC09SortOrder(p *Prog, a *Anchors, r *Report) {
 	if n == 0 {
 		r.Unk("Less", "-", "no Less method found in the package (the ordering used by `sorted` is not recognised)")
 	}
+}
+
+// c09NonNilBytes: the byte slice v is never nil: made here (make, a literal, a conversion), or the Bytes() of a buffer
+// that bytes.NewBuffer wrapped around such a slice.
+func c09NonNilBytes(p *Prog, v ssa.Value, d int) bool {
+	if d > 6 {
+		return false
+	}
+	switch x := v.(type) {
+	case *ssa.MakeSlice:
+		return true
+	case *ssa.Slice:
+		if _, isAlloc := x.X.(*ssa.Alloc); isAlloc {
+			return true // a composite literal
+		}
+		return c09NonNilBytes(p, x.X, d+1)
+	case *ssa.Phi:
+		for _, e := range x.Edges {
+			if !c09NonNilBytes(p, e, d+1) {
+				return false
+			}
+		}
+		return true
+	case *ssa.UnOp:
+		if sv := stripLoad(x); sv != ssa.Value(x) {
+			return c09NonNilBytes(p, sv, d+1)
+		}
+	case *ssa.Call:
+		callee := x.Common().StaticCallee()
+		if callee == nil {
+			return false
+		}
+		switch p.extName(callee) {
+		case "(*bytes.Buffer).Bytes":
+			return c09NonNilBytes(p, x.Common().Args[0], d+1)
+		case "bytes.NewBuffer":
+			return c09NonNilBytes(p, x.Common().Args[0], d+1)
+		}
+	}
+	return false
 }
